@@ -207,6 +207,7 @@ func workerBatch(t *testing.T, sc *Scenario) {
 	worker := int(envInt("VERIF_WORKER", 0))
 	budget := time.Duration(envInt("VERIF_TIME_S", 3600)) * time.Second
 	out := os.Getenv("VERIF_OUT")
+	dumpHashes := os.Getenv("VERIF_HASHES") != ""
 	t0 := time.Now()
 	sum := &WorkerSummary{Prop: sc.Prop, Worker: worker, Seed: seed, Start: start, Fired: map[string]int{}, Configured: map[string]int{}, Probes: map[string]int{}, Knobs: map[string]int{}, FailCount: map[string]int{}, Race: simrt.RaceBuild}
 	traceHashes := map[uint64]struct{}{}
@@ -221,6 +222,13 @@ func workerBatch(t *testing.T, sc *Scenario) {
 		fmt.Printf("R %d\n", run)
 		keep := len(sum.Samples) < 2 && i < 40
 		rec := ExecRun(t, sc, simrt.NewTape(seed, run), seed, run, keep)
+		if dumpHashes {
+			cls := "-"
+			if rec.Fail != nil {
+				cls = rec.Fail.Class
+			}
+			fmt.Printf("H %d %016x %016x %d %d %s\n", run, rec.TraceHash, rec.CaseHash, rec.Steps, len(rec.TapeG)+len(rec.TapeS), cls)
+		}
 		sum.Runs++
 		sum.Steps += int64(rec.Steps)
 		sum.Decisions += int64(rec.Decisions)
